@@ -21,7 +21,7 @@ COMMON_REQ = '''//@   requires c != nil && t != nil
 MULTI_REG = '''//@   requires testsRegistry != nil && testsRegistry.running != nil && testsRegistry.cleanup != nil && testsRegistry.running != testsRegistry.cleanup
 //@   requires held[testsRegistry.Mutex] == 0
 //@   requires testsRegistry.Mutex != testEvents.Mutex && testsRegistry.Mutex != _m && testEvents.Mutex != _m
-//@   let sp = snapPathSpec(c.snapsDir, c.filename, c.extension, tname(t), false, isTrimBathBuild, callerFile())
+//@   let sp = snapPathSpec(c.snapsDir, c.filename, c.extension, tname(t), false, isTrimBathBuild, baseCaller(3))
 //@   requires has(testsRegistry.running, sp) == has(testsRegistry.cleanup, sp)
 //@   requires has(testsRegistry.running, sp) ==> testsRegistry.running[sp] != nil && testsRegistry.cleanup[sp] != nil && testsRegistry.running[sp] != testsRegistry.cleanup[sp]
 //@   requires fsguard[sp] == _m
@@ -125,7 +125,7 @@ emit('''//@ func matchYAML(c, t, input, matchers)
 STANDALONE_REG = '''//@   requires standaloneTestsRegistry != nil && standaloneTestsRegistry.running != nil && standaloneTestsRegistry.cleanup != nil && standaloneTestsRegistry.running != standaloneTestsRegistry.cleanup
 //@   requires held[standaloneTestsRegistry.Mutex] == 0
 //@   requires standaloneTestsRegistry.Mutex != testEvents.Mutex
-//@   let gp = snapPathSpec(c.snapsDir, c.filename, {ext}, tname(t), true, isTrimBathBuild, callerFile())
+//@   let gp = snapPathSpec(c.snapsDir, c.filename, {ext}, tname(t), true, isTrimBathBuild, baseCaller(3))
 //@   let k = old(standaloneTestsRegistry.running[gp]) + 1
 //@   let sp = sprintf_d(gp, k)
 //@   requires fsguard[sp] == nil
